@@ -332,6 +332,20 @@ def tie_curve(rng, n):
     return np.array([[float(i), float(v)] for i, v in enumerate(y)]), fam
 
 
+def long_curve(rng, n=None):
+    """a LONG curve (> 1024 points): smooth decay + small dyadic noise + a few one-point spikes, so that the chord-distance profile of
+    the large ranges is not unimodal.  Anything that treats long ranges differently (sub-sampling, chunking, recursion limits) shows here."""
+    n = n or rng.randrange(1100, 2400)
+    x = np.arange(n, dtype=float) * rng.choice([1.0, 0.5, 2.0])
+    k = rng.choice([0.002, 0.004, 0.008])
+    y = np.round(4096.0 * np.exp(-k * np.arange(n))) / 4.0 + np.array([rng.randrange(0, 4) / 8.0 for _ in range(n)])
+    for _ in range(rng.randrange(2, 6)):
+        j = rng.randrange(20, n - 20)
+        y[j] += rng.choice([64.0, 200.0, 700.0, -30.0])
+    y = np.maximum(y, 0.0)
+    return np.column_stack([x, y]), 'long-curve'
+
+
 def random_points(ctx, nmax):
     rng = ctx.rng
     u = rng.random()
